@@ -8,6 +8,7 @@ STRUCT_WEIGHTS = {
     "set_attr": 10, "set_dim": 3, "link_append": 6, "link_remove": 3, "set_metadata": 3,
     "del_metadata": 1, "set_role": 2, "delete": 4, "link_dim": 2, "delete_dims": 0.5,
     "restart": 3, "create_property": 3, "prop_values": 3, "sec_dict": 1, "set_odml": 0.5,
+    "create_frame": 1.5,
 }
 
 
@@ -379,6 +380,157 @@ class C12(Profile):
                                        "link_list", "container", "property"])
 
 
+class C15(Profile):
+    prop = "C15"
+    name = "C15"
+    weights = {"create_block": 1, "create_array": 5, "set_attr": 14, "data_write": 4, "data_assign": 5,
+               "data_append": 3, "data_resize": 2, "data_read": 6, "create_tag": 2, "link_append": 4,
+               "create_feature": 2, "append_dim": 4, "calib_tag_read": 6, "restart": 3}
+    reopen_introspect = False
+    never_off = ("restart", "create_array", "set_attr", "data_read")
+
+    def owns(self, oracle, site, cls):
+        if oracle in ("array_read", "raw_changed"):
+            return True
+        if oracle.startswith(("state_", "reopen_model")):
+            return any(x in cls for x in ("data", "coeffs", "origin", "dtype"))
+        return False
+
+    def tune_knobs(self, k, rng):
+        k["names"] = ["a", "b", "c", "d", "e", "f"]
+        k["dup_rate"] = 0.0
+        k["max_blocks"] = 1
+        k["max_per"] = rng.randint(1, 3)
+        k["max_rank"] = rng.randint(1, 3)
+        k["max_extent"] = rng.randint(1, 5)
+        k["min_extent"] = 0 if rng.random() < 0.2 else 1
+        k["dtypes"] = rng.sample(P.NUM_DTYPES, rng.randint(1, 4))
+        k["extreme_rate"] = 0.0
+        k["calib_values"] = True
+        k["set_kinds"] = ["array"]
+        k["link_owner_kinds"] = ["tag"]
+        k["walk_every"] = P.pick(rng, [1, 2])
+        k["n_ops"] = rng.randint(10, 40)
+        k["vias"] = [0, 1, 4, 5]
+
+    def setup_ops(self, run, rng):
+        ops = Profile.setup_ops(self, run, rng)
+        if rng.random() < 0.7:
+            dt = P.pick(rng, run.knobs["dtypes"])
+            ops += [
+                {"op": "create_block", "name": "blk", "type": "t", "compr": "Auto"},
+                {"op": "create_array", "blk": 0, "name": "sig", "type": "t", "dtype": dt, "shape": [6, 2],
+                 "vseed": rng.randrange(1, 1 << 20), "route": "data", "compr": P.pick(rng, ["No", "DeflateNormal"]),
+                 "calib": True},
+                {"op": "append_dim", "arr": 0, "k": "sample", "interval": 1.0, "label": None, "unit": None, "offset": None},
+                {"op": "append_dim", "arr": 0, "k": "set", "labels": ["a", "b"]},
+                {"op": "create_tag", "blk": 0, "name": "tg", "type": "t", "position": [float(rng.randint(0, 3)), 0.0]},
+                {"op": "set_attr", "kind": "tag", "i": 0, "attr": "extent", "val": [float(rng.randint(1, 2)), 1.0]},
+                {"op": "link_append", "okind": "tag", "o": 0, "list": 0, "t": 0},
+                {"op": "create_feature", "tag": 0, "arr": 0, "lt": P.pick(rng, P.LINK_TYPES)},
+            ]
+        return ops
+
+    def next_op(self, run):
+        o = Profile.next_op(self, run)
+        if o["op"] == "set_attr" and o.get("kind") == "array" and run.rng.random() < 0.8:
+            # bias the generic setter op towards the two calibration attributes
+            a = P.pick(run.rng, ["polynom_coefficients", "expansion_origin"])
+            from .ops_struct import SETTERS
+            o["attr"] = a
+            o["val"] = SETTERS[("array", a)][0](run.rng)
+        if o["op"] == "create_array":
+            o["vseed"] = run.rng.randrange(1, 1 << 30)
+            o["calib"] = True
+        return o
+
+    def after_op(self, run, op, res):
+        from .ops_data import check_array, check_all_arrays, check_raw, check_views
+        if not isinstance(res, dict) or res.get("outcome") != "ok":
+            return
+        kind = op["op"]
+        m = res.get("target")
+        if kind in ("data_write", "data_assign", "data_append", "data_resize", "create_array", "set_attr") \
+                and m is not None and m.kind == "array":
+            h = run.R(m, 4)
+            check_array(run, m, h, kind)
+            check_views(run, m, h, kind)
+            check_raw(run, m, kind)
+            if len(m.polynom_coefficients) or m.expansion_origin:
+                run.stats["checks_with_calibration_active"] += 1
+        elif kind == "restart":
+            check_all_arrays(run, "after_restart")
+            for m in run.enum("array"):
+                check_raw(run, m, "after_restart")
+
+
+class C16(Profile):
+    prop = "C16"
+    name = "C16"
+    weights = {"create_block": 1, "create_frame": 5, "df_op": 30, "restart": 4, "set_attr": 1, "delete": 0.5}
+    reopen_introspect = True
+    never_off = ("restart", "create_frame", "df_op")
+
+    def owns(self, oracle, site, cls):
+        if oracle in ("frame_read", "frame_refused_changed"):
+            return True
+        if oracle in ("unexpected_error", "missing_refusal", "create_result", "wrong_error_class"):
+            return site.startswith(("df_", "create_frame"))
+        if oracle.startswith(("state_", "reopen_")):
+            return "frames" in cls or "DataFrame" in cls or "__data__" in cls
+        return False
+
+    def tune_knobs(self, k, rng):
+        k["names"] = ["f1", "f2", "f3", "ünï", "x y"]
+        k["dup_rate"] = 0.1
+        k["max_blocks"] = 1
+        k["max_per"] = rng.randint(1, 3)
+        k["set_kinds"] = ["frame"]
+        k["delete_kinds"] = ["frame"]
+        k["walk_every"] = P.pick(rng, [1, 3])
+        k["n_ops"] = rng.randint(8, 40)
+        k["vias"] = [0, 1, 2, 4]
+
+    def after_op(self, run, op, res):
+        from .ops_frame import _check_frame
+        if op["op"] == "restart":
+            for m in run.enum("frame"):
+                _check_frame(run, m, run.R(m, 0), "after_restart")
+            if run.last_kind == "df_op":
+                run.stats["restart_right_after_frame_op"] += 1
+
+
+class C20(Profile):
+    prop = "C20"
+    name = "C20"
+    weights = {"create_block": 2, "create_group": 4, "create_array": 5, "create_frame": 2, "create_tag": 3,
+               "create_mtag": 2, "create_feature": 3, "create_source": 3, "create_section": 5,
+               "create_property": 5, "append_dim": 3, "set_attr": 6, "link_append": 9, "set_role": 1,
+               "prop_values": 2, "data_write": 2, "link_dim": 1, "copy_experiment": 9, "restart": 1}
+    owned = ("copy_",)
+    reopen_introspect = False
+    never_off = ("copy_experiment", "create_block", "create_section")
+    late_ops = ("copy_experiment",)
+    build_fraction = 0.5
+
+    def tune_knobs(self, k, rng):
+        k["names"] = ["blk", "a", "sec", "sub", "p", "n1", "ünï", "x y"]
+        k["dup_rate"] = 0.02
+        k["max_blocks"] = rng.randint(1, 3)
+        k["max_per"] = rng.randint(2, 4)
+        k["dtypes"] = ["float64", "int16", "str", "bool"]
+        k["max_extent"] = 3
+        k["walk_every"] = 0
+        k["n_ops"] = rng.randint(10, 40)
+        k["md_kinds"] = []
+
+    def setup_ops(self, run, rng):
+        ops = Profile.setup_ops(self, run, rng)
+        ops.append({"op": "seed_second_file", "names": P.pick(rng, [["blk"], ["other"], ["blk", "a"]]),
+                    "sec": P.pick(rng, ["sec", "zz"]), "compr": "Auto"})
+        return ops
+
+
 ALL_MUTATING = dict(STRUCT_WEIGHTS, data_write=2, data_assign=2, data_append=2, data_resize=1)
 
 
@@ -449,3 +601,6 @@ register(C19())
 register(C12())
 register(C11())
 register(C17())
+register(C15())
+register(C16())
+register(C20())
